@@ -15,6 +15,11 @@ for p in sorted(glob.glob(os.path.join(os.path.dirname(os.path.dirname(os.path.a
         checks.append(f"{c}: " + ("VIOLATION" + (" (no-failing-input-found)" if nf else "") if r.get("exit") == 1 else "exit %s" % r.get("exit")))
     files = m.get("files_changed", "")
     if isinstance(files, list): files = ", ".join(files)
+    if m.get("kind") == "harmless":
+        checks = [f"{c}: " + ("ALARM" if (r.get("exit") != 0 or r.get("violation_lines")) else "quiet") for c, r in v.get("checks", {}).items()]
+        res = "quiet (good)" if not v.get("false_alarms") else "FALSE ALARM " + ",".join(v["false_alarms"])
+        rows.append(f"| {sid} (harmless) | {files} | {summ} | {'; '.join(checks)} | {res} |")
+        continue
     rows.append(f"| {sid} | {files} | {summ} | {'; '.join(checks)} | {'detected' if v.get('detected') else 'MISSED'} |")
 print("| seed | file(s) | what it breaks / needs | our checks | result |")
 print("|---|---|---|---|---|")
